@@ -379,6 +379,49 @@ fn run_suite<S: ShortGroupSignatureScheme + 'static>(em: &mut Emitter, base: &mu
                     }
                 }
             }
+            // a credential copy whose signature's group elements are all the point at infinity (the degenerate signature that
+            // satisfies a pairing equation for every message vector) and whose disclosed claim is replaced: the honest prover
+            // run on it yields a consistent presentation of a value the issuer never signed
+            let labels_now: Vec<String> = p.disclosed_messages.get(&sid).map(|m| m.keys().cloned().collect()).unwrap_or_default();
+            for l in labels_now.iter().take(2) {
+                let li = LABELS.iter().position(|x| *x == l).unwrap();
+                let mut cv = serde_json::to_value(&scn.bundles[0].credential).unwrap_or_default();
+                let mut replaced = 0;
+                if let Some(so) = cv.get_mut("signature").and_then(|x| x.as_object_mut()) {
+                    for (_k, v) in so.iter_mut() {
+                        let n = v.as_str().map(|x| x.len()).unwrap_or(0);
+                        if n == 96 || n == 192 {
+                            *v = json!(format!("c0{}", "00".repeat(n / 2 - 1)));
+                            replaced += 1;
+                        }
+                    }
+                }
+                if replaced == 0 {
+                    em.count("degenerate-signature:no-point-field");
+                    continue;
+                }
+                let text = serde_json::to_string(&cv).unwrap_or_default();
+                match call(|| serde_json::from_str::<credx::credential::Credential<S>>(&text).map_err(|_| ())) {
+                    Out::Ok(mut cred2) => {
+                        cred2.claims[li] = false_claim(&cred2.claims[li], false);
+                        let mut creds2 = scn.credentials.clone();
+                        creds2.insert(sid.clone(), cred2.into());
+                        match call(|| Presentation::create(&creds2, &scn.schema, &scn.nonce)) {
+                            Out::Ok(q2) => {
+                                // through the wire form as well: checks done only by a byte decoder never see this object
+                                judge(em, suite, "credential-copy-degenerate-signature-inner-false", &scn, &q2, l);
+                                if let Ok(t) = serde_json::to_string(&q2) {
+                                    if let Out::Ok(q3) = call(|| serde_json::from_str::<Presentation<S>>(&t).map_err(|_| ())) {
+                                        judge(em, suite, "credential-copy-degenerate-signature-json-inner-false", &scn, &q3, l);
+                                    }
+                                }
+                            }
+                            o => em.count(&format!("degenerate-signature:create-{}", o.class())),
+                        }
+                    }
+                    o => em.count(&format!("degenerate-signature:decode-{}", o.class())),
+                }
+            }
             let mut q = p.clone();
             q.disclosed_messages.shift_remove(&sid);
             judge(em, suite, "reported-map-missing", &scn, &q, "");
